@@ -250,6 +250,12 @@ func (m *UDPMuxDefault) RemoveConnByUfrag(ufrag string) {
 			delete(m.addressMap, addr)
 		}
 	}
+
+	// "stops and removes": a removed connection must not come back by writing to a new address,
+	// which would register that address for it again.
+	for _, c := range removedConns {
+		_ = c.Close()
+	}
 }
 
 // removeClosedConn unregisters exactly conn after it has been closed. Unlike RemoveConnByUfrag it leaves
